@@ -4,6 +4,8 @@ import RedisVerif.Model.SimKernel
 import RedisVerif.Model.SimHarness
 import RedisVerif.Model.SimTyped
 import RedisVerif.Model.SimMore
+import RedisVerif.Model.SimMulti
+import RedisVerif.Model.SimBuggify
 
 /-
   C20 sub-driver (stateful).
@@ -52,6 +54,9 @@ structure St where
   offsets : NMap (Int × Int × Int) := []
   /-- `SimulationConfig::simulation_start_epoch` -/
   epoch : Int := 0
+  /-- the `FaultConfig` under construction (ops `FC`, `FSET`, …) and the thread-local BUGGIFY context -/
+  fcfg : SimBuggify.FaultCfg := .new
+  bctx : SimBuggify.Ctx := {}
 
 def St.init : St := {}
 
@@ -88,6 +93,15 @@ def showKind : EvKind → String
 
 def showEvents (l : List Event) : String :=
   " ".intercalate (l.map fun e => s!"{e.time}:{e.host}:{showKind e.kind}")
+
+/-- one call of the BUGGIFY layer on the driver's context and generator (`SimulatedRng`) -/
+def fcall (st : St) (c : SimBuggify.Call) : P (St × String) :=
+  match st.kind with
+  | .det => failure
+  | .sim =>
+    match st.bctx.call SimHarness.chacha c st.rng with
+    | .error e => pure (st, e)
+    | .ok (d, ctx, r) => pure ({ st with bctx := ctx, rng := r }, match d with | some b => showBool b | none => "ok")
 
 def cmd (st : St) : P (St × String) := do
   let op ← tok
@@ -237,9 +251,66 @@ def cmd (st : St) : P (St × String) := do
     let seed ← nat
     let ops ← nat
     let cfg ← restNats
-    match ((SimTyped.run h seed ops cfg).orElse (fun _ => SimMore.run h seed ops cfg)).orElse (fun _ => SimHarness.run h seed ops cfg) with
+    match (((SimMulti.run h seed cfg).orElse (fun _ => SimTyped.run h seed ops cfg)).orElse (fun _ => SimMore.run h seed ops cfg)).orElse (fun _ => SimHarness.run h seed ops cfg) with
     | some t => pure (st, t)
     | none => failure
+  | "FC" =>
+    let name ← tok
+    match SimBuggify.presetOf name with
+    | none => failure
+    | some c =>
+      let probs := ",".intercalate (c.probs.map fun p => s!"{p.1}:{p.2}")
+      pure ({ st with fcfg := c }, s!"en={if c.enabled then 1 else 0} mult={c.mult} probs={probs}")
+  | "FSET" =>
+    let id ← nat
+    let bits ← nat
+    pure ({ st with fcfg := st.fcfg.set id bits }, "ok")
+  | "FWITH" =>
+    let k ← nat
+    let l := if k == 0 then SimFaultTable.builderWithNetworkFaults else if k == 1 then SimFaultTable.builderWithTimerFaults else SimFaultTable.builderWithProcessFaults
+    pure ({ st with fcfg := st.fcfg.setAll l }, "ok")
+  | "FMULT" =>
+    let m ← nat
+    let c := st.fcfg.withMultiplier m
+    pure ({ st with fcfg := c }, toString c.mult)
+  | "FEN" =>
+    let b ← nat
+    pure ({ st with fcfg := { st.fcfg with enabled := b == 1 } }, "ok")
+  | "FGET" =>
+    let id ← nat
+    pure (st, toString (st.fcfg.get id))
+  | "FTRIG" =>
+    let id ← nat
+    let v ← nat
+    pure (st, showBool (st.fcfg.shouldTrigger id v))
+  | "FINSTALL" => fcall st (.setConfig st.fcfg)
+  | "FSUP" =>
+    let b ← nat
+    fcall st (.suppress (b == 1))
+  | "FRESET" => fcall st .resetStats
+  | "FSB" =>
+    let id ← nat
+    fcall st (.check id)
+  | "FSBP" =>
+    let id ← nat
+    let bits ← nat
+    fcall st (.checkProb id bits)
+  | "FMAC" =>
+    let k ← nat
+    let id ← nat
+    -- buggify_rarely! 0.001, buggify_sometimes! 0.05, buggify_often! 0.20, buggify!(rng, id), buggify!(rng, id, 0.5)
+    fcall st (match k with
+      | 0 => .checkProb id 0x3F50624DD2F1A9FC
+      | 1 => .checkProb id 0x3FA999999999999A
+      | 2 => .checkProb id 0x3FC999999999999A
+      | 3 => .check id
+      | _ => .checkProb id 0x3FE0000000000000)
+  | "FHERE" =>
+    let bits ← nat
+    fcall st (.checkProb 2000 bits)
+  | "FSTATS" =>
+    let sh (m : NMap Nat) : String := ",".intercalate (m.map fun p => s!"{p.1}:{p.2}")
+    pure (st, s!"checks {sh st.bctx.checks} triggers {sh st.bctx.triggers}")
   | "DELTAS" =>
     -- `get_all_deltas()` given the map order of this process: <sorted flag> <key indices in map order…>
     let flag ← nat
